@@ -202,6 +202,19 @@ func c11Case(c *core.Ctx) *core.Result {
 	d.AddParagraph("body")
 	model := map[string]*hfDef{}
 	tokens := map[string]bool{}
+	// documents that stay alive beside the current one (a template base and its renders): each keeps its own model
+	type liveDoc struct {
+		d     *document.Document
+		model map[string]*hfDef
+	}
+	var others []*liveDoc
+	copyModel := func(m map[string]*hfDef) map[string]*hfDef {
+		c := map[string]*hfDef{}
+		for k, v := range m {
+			c[k] = v
+		}
+		return c
+	}
 	kinds := []document.HeaderFooterType{document.HeaderFooterTypeDefault, document.HeaderFooterTypeFirst, document.HeaderFooterTypeEven}
 	aligns := []document.AlignmentType{document.AlignLeft, document.AlignCenter, document.AlignRight, document.AlignJustify, ""}
 	var log []string
@@ -210,6 +223,13 @@ func c11Case(c *core.Ctx) *core.Result {
 	hfCalls, cycles := 0, 0
 	repeats := 0
 	for i := 0; i < n && len(res.Findings) == 0; i++ {
+		if len(others) > 0 && r.Chance(1, 3) {
+			// continue on one of the other live documents
+			j := r.Intn(len(others))
+			others[j].d, d = d, others[j].d
+			others[j].model, model = model, others[j].model
+			log = append(log, "switch-document")
+		}
 		k := r.Intn(100)
 		switch {
 		case k < 55: // header/footer call
@@ -348,14 +368,26 @@ func c11Case(c *core.Ctx) *core.Result {
 				res.Count("render_failures", 1)
 				break
 			}
+			if len(others) < 3 && r.Bool() {
+				// the base stays in use beside its render
+				others = append(others, &liveDoc{d: d, model: copyModel(model)})
+				log = append(log, "render-as-template(base kept)")
+			} else {
+				log = append(log, "render-as-template")
+			}
 			d = d2
 			cycles++
-			log = append(log, "render-as-template")
 		}
 	}
 	if len(res.Findings) == 0 {
 		if b, err := d.ToBytes(); err == nil {
 			c11Check(res, b, model, tokens, "saved", "calls: "+strings.Join(tail(log, 14), " "))
+		}
+		for _, o := range others {
+			if b, err := o.d.ToBytes(); err == nil {
+				c11Check(res, b, o.model, tokens, "saved-sibling", "calls: "+strings.Join(tail(log, 20), " "))
+				res.Count("sibling_documents_checked", 1)
+			}
 		}
 	}
 	res.Count("header_footer_calls", int64(hfCalls))
@@ -371,7 +403,7 @@ func init() {
 	core.Register(&core.Check{
 		ID:    "C11",
 		Level: "exploration",
-		Rule: "sequences of AddHeader/AddFooter/Add*WithPageNumber/AddFormatted* over default/first/even with repeats (every call's text carries a unique token; some calls pass an empty text), SetDifferentFirstPage, page-setting calls, paragraphs/images/lists/tables, save+open cycles and use as a document template (both render entry points); " +
+		Rule: "sequences of AddHeader/AddFooter/Add*WithPageNumber/AddFormatted* over default/first/even with repeats (every call's text carries a unique token; some calls pass an empty text), SetDifferentFirstPage, page-setting calls, paragraphs/images/lists/tables, save+open cycles and use as a document template (both render entry points; the base document may stay alive beside its renders, each with its own model, and all are extended alternately); " +
 			"at every save the independent reader checks: at most one header and one footer reference per kind in w:sectPr, none for kinds never defined, each resolves through the main part's relationships to a w:hdr/w:ftr part that shows the token, text, PAGE field, alignment and run formatting of the LATEST call for that kind and no token of any other call. " +
 			"Non-trivial: >=2 successful header/footer calls and >=1 definition resolved; distinct = call sequence.",
 		Cases:         func(t string) int { return tierN(t, 12000, 400000) },
